@@ -114,6 +114,102 @@ def check_consumer(ctx: Context, rep, rule: str):
     return puts, ccfg
 
 
+def check_sentinel(ctx: Context, rep, rule: str, cfg=None) -> None:
+    run_fn = ctx.fn(f"{LP}:Collector.run")
+    if cfg is None:
+        cfg = ctx.cfg(run_fn)
+    rep.rule(
+        rule,
+        "the worker forwards exactly one sentinel and leaves its loop: the "
+        "sentinel branch puts the sentinel on the result queue and returns; "
+        "no other return/break exists")
+    sent_tests = [
+        n for n in cfg.find(lambda n: n.kind == "test") if isinstance(
+            n.ast, ast.Call) and isinstance(n.ast.func, ast.Name) and
+        n.ast.func.id == "isinstance" and "StopSentinel" in norm(n.ast)
+    ]
+    rep.ob(rule, len(sent_tests) == 1, loc=run_fn.loc(),
+           where=run_fn.qualname, construct="if isinstance(element, StopSentinel)",
+           message="sentinel test present in the worker loop")
+    for t in sent_tests:
+        body = t.stmt.body
+        puts = [c for s in body for c in ast.walk(s) if isinstance(c, ast.Call)
+                and isinstance(c.func, ast.Attribute) and c.func.attr == "put"
+                and "_results" in norm(c.func.value)]
+        ends = isinstance(body[-1], (ast.Return, ast.Break))
+        rep.ob(rule, len(puts) == 1 and ends, loc=run_fn.loc(t.ast),
+               where=run_fn.qualname,
+               construct=f"{len(puts)} put(s) then {type(body[-1]).__name__}",
+               message="one sentinel forwarded to the consumer, then the "
+               "worker stops")
+    exits = [n for n in run_fn.body_nodes()
+             if isinstance(n, (ast.Return, ast.Break))]
+    for e in exits:
+        inside = any(e in ast.walk(s) for t in sent_tests for s in t.stmt.body)
+        rep.ob(rule, inside, loc=run_fn.loc(e), where=run_fn.qualname,
+               construct=short(e),
+               message="a worker may only stop in the sentinel branch "
+               "(otherwise the consumer waits for a sentinel that never comes)")
+    # the item is taken by a blocking get on the to-process queue
+    gets = [c for c in run_fn.calls() if isinstance(c.func, ast.Attribute) and
+            c.func.attr in ("get", "get_nowait")]
+    rep.ob(rule, len(gets) == 1 and "_to_process" in norm(gets[0]) and
+           not gets[0].args and not gets[0].keywords and gets[0].func.attr == "get",
+           loc=run_fn.loc(gets[0]) if gets else run_fn.loc(),
+           where=run_fn.qualname,
+           construct=norm(gets[0]) if gets else "<none>",
+           message="one blocking get per round on the to-process queue")
+
+
+
+def check_owner(ctx: Context, rep, rule: str) -> None:
+    rep.rule(
+        rule,
+        "queue ownership: only the workers take from the to-process queue "
+        "and only the pool puts into it; only the workers put into the "
+        "results queue and only the consumer (imap_unordered) takes from it; "
+        "every take is a plain blocking get() and nobody polls empty()/qsize() "
+        "to decide about a blocking operation (check-then-act races)")
+    lp_mod = ctx.repo.module(LP)
+    expected = {
+        ("_to_process", "get"): {"Collector.run"},
+        ("_to_process", "put"): {"LazyPool.imap_unordered",
+                                 "LazyPool.finish_and_reset"},
+        ("_results", "put"): {"Collector.run"},
+        ("_results", "get"): {"LazyPool.imap_unordered"},
+    }
+    n_q = 0
+    for f in lp_mod.functions.values():
+        for c in f.calls():
+            if not isinstance(c.func, ast.Attribute):
+                continue
+            recv = dotted(c.func.value) or ""
+            q = "_to_process" if recv.endswith("_to_process") else (
+                "_results" if recv.endswith("_results") else None)
+            if q is None:
+                continue
+            m = c.func.attr
+            n_q += 1
+            if m in ("get", "put"):
+                rep.ob(rule, f.qualname in expected[(q, m)],
+                       loc=f.loc(c), where=f.qualname, construct=short(c),
+                       message=f"{q}.{m}() belongs to "
+                       f"{sorted(expected[(q, m)])}")
+                rep.ob(rule, not c.keywords and len(c.args) == (
+                    1 if m == "put" else 0), loc=f.loc(c), where=f.qualname,
+                       construct=short(c) + " (blocking, no timeout)",
+                       message="queue operations are plain blocking calls",
+                       sample=False)
+            else:
+                rep.ob(rule, False, loc=f.loc(c), where=f.qualname,
+                       construct=short(c),
+                       message=f"`{m}` on a protocol queue: polling the queue "
+                       "state or non-blocking access opens a check-then-act "
+                       "race with the other threads")
+    rep.floor(rule, n_q, 6, "instances")
+
+
+
 def run(ctx: Context, rep) -> None:
     rep.not_decided = (
         "correctness under all thread interleavings, the relation of the "
@@ -189,47 +285,7 @@ def run(ctx: Context, rep) -> None:
     if f is None:
         raise AnalysisError("C13.worker: Collector facts missing")
     cfg = f["cfg"]
-    rep.rule(
-        "C13.sentinel",
-        "the worker forwards exactly one sentinel and leaves its loop: the "
-        "sentinel branch puts the sentinel on the result queue and returns; "
-        "no other return/break exists")
-    sent_tests = [
-        n for n in cfg.find(lambda n: n.kind == "test") if isinstance(
-            n.ast, ast.Call) and isinstance(n.ast.func, ast.Name) and
-        n.ast.func.id == "isinstance" and "StopSentinel" in norm(n.ast)
-    ]
-    rep.ob("C13.sentinel", len(sent_tests) == 1, loc=run_fn.loc(),
-           where=run_fn.qualname, construct="if isinstance(element, StopSentinel)",
-           message="sentinel test present in the worker loop")
-    for t in sent_tests:
-        body = t.stmt.body
-        puts = [c for s in body for c in ast.walk(s) if isinstance(c, ast.Call)
-                and isinstance(c.func, ast.Attribute) and c.func.attr == "put"
-                and "_results" in norm(c.func.value)]
-        ends = isinstance(body[-1], (ast.Return, ast.Break))
-        rep.ob("C13.sentinel", len(puts) == 1 and ends, loc=run_fn.loc(t.ast),
-               where=run_fn.qualname,
-               construct=f"{len(puts)} put(s) then {type(body[-1]).__name__}",
-               message="one sentinel forwarded to the consumer, then the "
-               "worker stops")
-    exits = [n for n in run_fn.body_nodes()
-             if isinstance(n, (ast.Return, ast.Break))]
-    for e in exits:
-        inside = any(e in ast.walk(s) for t in sent_tests for s in t.stmt.body)
-        rep.ob("C13.sentinel", inside, loc=run_fn.loc(e), where=run_fn.qualname,
-               construct=short(e),
-               message="a worker may only stop in the sentinel branch "
-               "(otherwise the consumer waits for a sentinel that never comes)")
-    # the item is taken by a blocking get on the to-process queue
-    gets = [c for c in run_fn.calls() if isinstance(c.func, ast.Attribute) and
-            c.func.attr in ("get", "get_nowait")]
-    rep.ob("C13.sentinel", len(gets) == 1 and "_to_process" in norm(gets[0]) and
-           not gets[0].args and not gets[0].keywords and gets[0].func.attr == "get",
-           loc=run_fn.loc(gets[0]) if gets else run_fn.loc(),
-           where=run_fn.qualname,
-           construct=norm(gets[0]) if gets else "<none>",
-           message="one blocking get per round on the to-process queue")
+    check_sentinel(ctx, rep, "C13.sentinel", cfg)
 
     puts, imap_cfg = check_consumer(ctx, rep, "C13.consumer")
     ccfg = imap_cfg
@@ -294,50 +350,7 @@ def run(ctx: Context, rep) -> None:
            message="prefill and refill pull from one shared iterator object")
 
     # -- queue ownership ----------------------------------------------------------------
-    rep.rule(
-        "C13.owner",
-        "queue ownership: only the workers take from the to-process queue "
-        "and only the pool puts into it; only the workers put into the "
-        "results queue and only the consumer (imap_unordered) takes from it; "
-        "every take is a plain blocking get() and nobody polls empty()/qsize() "
-        "to decide about a blocking operation (check-then-act races)")
-    lp_mod = ctx.repo.module(LP)
-    expected = {
-        ("_to_process", "get"): {"Collector.run"},
-        ("_to_process", "put"): {"LazyPool.imap_unordered",
-                                 "LazyPool.finish_and_reset"},
-        ("_results", "put"): {"Collector.run"},
-        ("_results", "get"): {"LazyPool.imap_unordered"},
-    }
-    n_q = 0
-    for f in lp_mod.functions.values():
-        for c in f.calls():
-            if not isinstance(c.func, ast.Attribute):
-                continue
-            recv = dotted(c.func.value) or ""
-            q = "_to_process" if recv.endswith("_to_process") else (
-                "_results" if recv.endswith("_results") else None)
-            if q is None:
-                continue
-            m = c.func.attr
-            n_q += 1
-            if m in ("get", "put"):
-                rep.ob("C13.owner", f.qualname in expected[(q, m)],
-                       loc=f.loc(c), where=f.qualname, construct=short(c),
-                       message=f"{q}.{m}() belongs to "
-                       f"{sorted(expected[(q, m)])}")
-                rep.ob("C13.owner", not c.keywords and len(c.args) == (
-                    1 if m == "put" else 0), loc=f.loc(c), where=f.qualname,
-                       construct=short(c) + " (blocking, no timeout)",
-                       message="queue operations are plain blocking calls",
-                       sample=False)
-            else:
-                rep.ob("C13.owner", False, loc=f.loc(c), where=f.qualname,
-                       construct=short(c),
-                       message=f"`{m}` on a protocol queue: polling the queue "
-                       "state or non-blocking access opens a check-then-act "
-                       "race with the other threads")
-    rep.floor("C13.owner", n_q, 6, "instances")
+    check_owner(ctx, rep, "C13.owner")
 
     # -- reset ----------------------------------------------------------------------
     rep.rule(
